@@ -49,6 +49,16 @@ func H_C19_expire() {
 	od := bson.D{{Key: "_id", Value: int32(1)}, {Key: "t", Value: primitive.DateTime(0)}}
 	_, err := txn.Insert(other, bsonkit.List{&od}, true)
 	vf.Assume(err == nil)
+	// a third namespace with a TTL index on ANOTHER field (u): its document has a very old date in t,
+	// which is not TTL-indexed there, and must survive
+	third := Handle{"db", "ttlu"}
+	if vf.Bool("thirdTTL") {
+		_, err := txn.CreateIndex(third, "", mongokit.IndexConfig{Key: &bson.D{{Key: "u", Value: int32(1)}}, Expiry: time.Hour})
+		vf.Assume(err == nil)
+	}
+	td := bson.D{{Key: "_id", Value: int32(1)}, {Key: "t", Value: primitive.DateTime(0)}}
+	_, err = txn.Insert(third, bsonkit.List{&td}, true)
+	vf.Assume(err == nil)
 	n := vf.Choice("n", vf.Param("maxdocs", 2)+1)
 	ttags := uint32(vf.TDate|vf.TInt32|vf.TInt64|vf.TString|vf.TNull|vf.TArray) | vf.Child(vf.TDate|vf.TInt32)
 	for i := 0; i < n; i++ {
@@ -103,6 +113,7 @@ func H_C19_expire() {
 		vf.Assert(bsonkit.Get(ev, "operationType") == "delete", "an expiry removal is not logged as delete")
 	}
 	vf.Assert(len(txn.Catalog().Namespaces[other].Documents.List) == 1, "a collection without TTL index was touched")
+	vf.Assert(len(txn.Catalog().Namespaces[third].Documents.List) == 1, "a document was removed because of a date in a field that is not TTL-indexed in its collection")
 	if removed == 0 {
 		vf.Assert(txn.Catalog() == before && !txn.Dirty(), "an expiry pass that removes nothing changed the transaction")
 	}
